@@ -213,6 +213,7 @@ pub fn replay(args: &Args) -> Summary {
         let op = case["op"].as_str().unwrap();
         let p = case["p"].as_u64().unwrap() as usize;
         let x = case["x"].as_u64().unwrap();
+        let nt = case["pcount"].as_array().map(|a| a.len()).unwrap_or(nt);
         let out = catch(|| {
             let mut w = World::new(pre.len(), nc, nt, &ids);
             w.construct(&pre);
